@@ -431,6 +431,34 @@ let cmd_mcli args =
              | Message m -> "message " ^ ostr m))
   | _ -> failwith "mcli: bad arguments"
 
+(* margv <n> <arg hex>*n <entry>* : the decision of main over the RAW argument vector (CliArgs.main_in_world);
+   entry = <name hex>:<U|R|A>:<M|U|L>:<abort threshold or -> says what the file of that name is for the front
+   end, for the loader, and from which cycle budget on its simulation aborts *)
+let cmd_margv args =
+  match args with
+  | n :: rest ->
+    let n = int_of_string n in
+    let rec split k l acc = if k = 0 then (List.rev acc, l) else (match l with x :: r -> split (k - 1) r (x :: acc) | [] -> failwith "margv: too few arguments") in
+    let (argv, entries) = split n rest [] in
+    let argv = List.map (fun x -> cstr (hex_decode x)) argv in
+    let table = List.map (fun e ->
+        match Stdlib.String.split_on_char ':' e with
+        | [nm; hk; yk; ab] -> (hex_decode nm, (hk, yk, ab))
+        | _ -> failwith "margv: bad entry") entries in
+    let find nm = try Some (List.assoc (ostr nm) table) with Not_found -> None in
+    let w = { w_hcl = (fun nm -> match find nm with Some ("R", _, _) -> HclRejected | Some ("A", _, _) -> HclAccepted | _ -> HclUnreadable);
+              w_yo = (fun nm -> match find nm with Some (_, "L", _) -> YoLoadable | Some (_, "U", _) -> YoUnloadable | _ -> YoMissing);
+              w_sim = (fun f _ budget -> match find f with
+                  | Some (_, _, ab) when ab <> "-" -> if int_of_n budget >= int_of_string ab then SimAborts else SimCompletes
+                  | _ -> SimCompletes) } in
+    let (code, wh) = main_in_world w argv in
+    emit (Printf.sprintf "exit %d %s" (int_of_n code)
+            (match wh with
+             | PrintedUsage -> "usage" | PrintedVersion -> "version" | SyntaxOK -> "syntaxok"
+             | FinalState t -> "final " ^ Stdlib.string_of_int (int_of_n t)
+             | Message m -> "message " ^ ostr m))
+  | _ -> failwith "margv: bad arguments"
+
 (* lex <texthex> *)
 let token_str (t : token) : Stdlib.String.t =
   match t with
@@ -495,6 +523,7 @@ let dispatch cmd args =
   | "parse" -> cmd_mparse args
   | "lex" -> cmd_mlex args
   | "mcli" -> cmd_mcli args
+  | "margv" -> cmd_margv args
   | "region" -> cmd_mregion args
   | "mvalid" -> cmd_mvalid args
   | _ -> emit ("unknown command " ^ cmd)
